@@ -59,16 +59,22 @@ FASTOR_INLINE void _transpose(const T * FASTOR_RESTRICT a, T * FASTOR_RESTRICT o
         for (; i< M0; i+=innerBlock) {
             // Pack A
             for (size_t ii=0; ii<innerBlock; ++ii) {
-                _vec.load(&a[(i+ii)*N+(j)],false);
-                _vec.store(&pack_a[ii*outerBlock]);
+                // a packed row is outerBlock = numSIMDRows vectors wide
+                for (size_t v=0; v<numSIMDRows; ++v) {
+                    _vec.load(&a[(i+ii)*N+(j)+v*V::Size],false);
+                    _vec.store(&pack_a[ii*outerBlock+v*V::Size]);
+                }
             }
             // Perform transpose on pack_a and get the result
             // on pack_out
             internal::_transpose_dispatch<T,innerBlock,outerBlock>(pack_a,pack_out);
             // Unpack pack_out to out
             for (size_t jj=0; jj<outerBlock; ++jj) {
-                _vec.load(&pack_out[jj*innerBlock]);
-                _vec.store(&out[(j+jj)*M+(i)],false);
+                // a transposed row is innerBlock = numSIMDCols vectors wide
+                for (size_t v=0; v<numSIMDCols; ++v) {
+                    _vec.load(&pack_out[jj*innerBlock+v*V::Size]);
+                    _vec.store(&out[(j+jj)*M+(i)+v*V::Size],false);
+                }
             }
         }
 
@@ -419,10 +425,13 @@ template<>
 FASTOR_INLINE void _transpose_dispatch<float,8,8>(const float * FASTOR_RESTRICT a, float * FASTOR_RESTRICT out) {
     _transpose<float,8,8>(a,out);
 }
+// only where the 16x16 kernel exists: otherwise _transpose<float,16,16> is the blocked routine that called us
+#if defined(FASTOR_AVX512F_IMPL) && defined(FASTOR_AVX512DQ_IMPL)
 template<>
 FASTOR_INLINE void _transpose_dispatch<float,16,16>(const float * FASTOR_RESTRICT a, float * FASTOR_RESTRICT out) {
     _transpose<float,16,16>(a,out);
 }
+#endif
 template<>
 FASTOR_INLINE void _transpose_dispatch<double,2,2>(const double * FASTOR_RESTRICT a, double * FASTOR_RESTRICT out) {
     _transpose<double,2,2>(a,out);
@@ -435,10 +444,12 @@ template<>
 FASTOR_INLINE void _transpose_dispatch<double,4,4>(const double * FASTOR_RESTRICT a, double * FASTOR_RESTRICT out) {
     _transpose<double,4,4>(a,out);
 }
+#if defined(FASTOR_AVX512F_IMPL) || defined(FASTOR_AVX_IMPL)
 template<>
 FASTOR_INLINE void _transpose_dispatch<double,8,8>(const double * FASTOR_RESTRICT a, double * FASTOR_RESTRICT out) {
     _transpose<double,8,8>(a,out);
 }
+#endif
 } // internal
 //----------------------------------------------------------------------------------------------------------//
 
